@@ -272,7 +272,8 @@ def run(tier, seed):
                 F2 = list(Fc)
                 F2[int(rng.integers(0, len(F2)))] += float(rng.choice([2e-4, -3e-5, 1e-6]))
                 fam2 = fam and (sum(abs(x) for x in F2) <= 0.9) and abs(F2[0]) >= 1e-3 and abs(F2[-1]) >= 1e-3
-                one(ctx, C, LP, F2, klass + "/near-duplicate", fam2, vecs[int(rng.integers(0, len(vecs)))], tol)
+                # under an explicit seed vector or, like the call just before, under the library's own draw
+                one(ctx, C, LP, F2, klass + "/near-duplicate", fam2, (vecs[int(rng.integers(0, len(vecs)))] if rng.random() < 0.5 else None), tol)
     # threshold-adjacent members of the family: an inner conjugate root pair of 1 - F F~ with imaginary part 1e-8..1e-6
     # (just past a collision of two real roots) - found by bisection, never by sampling
     for n in ([2, 3, 4, 5, 7, 9, 12] if tier == "quick" else list(range(2, 13)) * 4):
